@@ -28,6 +28,48 @@ SHELL_SPECIAL = set("|&;<>()$`\\\"' \t\n*?[#~!{}^")
 NINJA_ESCAPES = {ord("\n"), ord(" "), ord(":"), ord("$"), ord("{"), ord("}")}
 
 
+def r_fresh_buffers(prog, rep):
+    """shared by C17 and C18: the loader evaluates each build attribute into a buffer; the evaluator *appends*."""
+    r = rep.rule("R-FRESH-BUFFER", "lookupNamedBuildParameter appends the attribute's value to the buffer it is given, and the flags (`generator`, `restat`), the pool name "
+                                   "and the response-file settings are read off that buffer: every call gets a buffer nothing was appended to since it was declared or "
+                                   "cleared — a shared scratch buffer not cleared in between makes `pool = x` read as `generator = x`", floor=6)
+    n_calls = 0
+    for f in prog.functions.values():
+        if f.is_lambda or "ManifestLoaderImpl" not in (f.cls or ""):
+            continue
+        calls = [c for c in f.calls() if (c.get("fn") or "").endswith("lookupNamedBuildParameter")]
+        if not calls:
+            continue
+        bufs = {}
+        for c in calls:
+            a = arg_nodes(c)
+            b = core(a[-1]) if a else None
+            if b is not None and b.get("k") == "ref" and b.get("did") is not None:
+                bufs.setdefault(b["did"], []).append(c)
+        for did, cs in bufs.items():
+            for c in cs:
+                n_calls += 1
+                cp = cfg.pos_of(f, c)
+                attr = expr_str(core(arg_nodes(c)[2]))[:24] if len(arg_nodes(c)) > 2 else "?"
+                bad = None
+                for c2 in cs:
+                    if c2 is c and not any(a.get("k") in ("for", "while", "do", "forrange") for a in f.ancestors(c)):
+                        continue
+
+                    def clears(p, e, did=did):
+                        n = cfg.elem_node(f, e)
+                        return n is not None and n.get("k") == "call" and (n.get("fn") or "").split("::")[-1] in ("clear", "resize", "set_size") and "obj" in n and \
+                            core(n.child("obj")) is not None and core(n.child("obj")).get("did") == did
+                    w = cfg.path_exists(f, cfg.pos_of(f, c2), lambda p, e, cp=cp: p == cp, avoid=clears)
+                    if w is not None:
+                        bad = c2
+                        break
+                r.check(bad is None, "%s|%s" % (f.name.split("::")[-1], attr), "", "attribute %s is evaluated into a buffer that still holds the value of %s (appended, not replaced)" % (
+                    attr, expr_str(core(arg_nodes(bad)[2]))[:24] if bad is not None and len(arg_nodes(bad)) > 2 else "?"), f, c)
+    if n_calls < 6:
+        raise AnalysisBroken("R-FRESH-BUFFER: only %d buffer-taking attribute lookups found" % n_calls)
+
+
 def r_input_classes(prog, rep):
     """shared with C18 (order-only vs implicit inputs decide what triggers a rebuild)"""
     ri = rep.rule("R-INPUT-CLASSES", "explicit, implicit and order-only inputs: `|` starts the implicit and `||` the order-only inputs; the parser counts the explicit "
@@ -284,6 +326,7 @@ def run(ctx):
     rs.check(okd, "actOnBeginRuleDecl|duplicate-only-in-own-scope", "", "a rule declaration is checked against / stored in something other than the current scope", rdcl)
 
     r_input_classes(prog, rep)
+    r_fresh_buffers(prog, rep)
 
     # ---------------------------------------------------------------- escapes
     r = rep.rule("R-ESCAPES", "evalString handles exactly Ninja's $-escapes ($\\n, $ , $:, $$, ${name}, $name) and reports everything else", floor=3)
@@ -499,4 +542,8 @@ VARIANTS = [
          expect=("R-ESCAPES", "simple-identifier")),
     dict(name="path-continuation-keeps-indentation", file="lib/Ninja/Lexer.cpp", old="      // If the character was a newline, consume any leading spaces.\n      if (c == '\\n') {\n        while (isNonNewlineSpace(peekNextChar()))\n          getNextChar();\n      }\n\n      continue;",
          new="      continue;", expect=("R-PATH-CONTINUATION", "blanks-after-escaped-newline")),
+    dict(name="generator-flag-read-off-the-pool-buffer", file="lib/Ninja/ManifestLoader.cpp", old="    SmallString<256> generator;\n    lookupNamedBuildParameter(decl, startTok, \"generator\", generator);\n    decl->setGeneratorFlag(!generator.str().empty());",
+         new="    lookupNamedBuildParameter(decl, startTok, \"generator\", poolName);\n    decl->setGeneratorFlag(!poolName.str().empty());", expect=("R-FRESH-BUFFER", "generator")),
+    dict(name="benign-scratch-buffer-cleared-between-lookups", file="lib/Ninja/ManifestLoader.cpp", old="    SmallString<256> generator;\n    lookupNamedBuildParameter(decl, startTok, \"generator\", generator);\n    decl->setGeneratorFlag(!generator.str().empty());",
+         new="    poolName.clear();\n    lookupNamedBuildParameter(decl, startTok, \"generator\", poolName);\n    decl->setGeneratorFlag(!poolName.str().empty());", expect=None),
 ]
